@@ -160,6 +160,20 @@ func (x *Exec) RegisterStdModels() {
 		return S(App("multierr.Append", SInt, e.toTerm(a[0]), e.toTerm(a[1])))
 	}
 
+	// sliceof(x): the slice boxed in interface value x
+	x.SpecFuncs["sliceof"] = func(e *Env, a []Value) Value {
+		t := e.toTerm(a[0])
+		if t.Op == "box" && len(t.Args) == 2 && t.Args[1].IsAtom() {
+			if b, ok := e.S.Boxes[t.Args[1].Op]; ok {
+				return b
+			}
+		}
+		data := x.dataOfTerm(t)
+		x.Ctx.DeclareFunc("unbox.len", []string{SInt}, SInt)
+		x.Ctx.DeclareFunc("unbox.arr.Int", []string{SInt}, SArr(SInt, SInt))
+		return &SliceVal{Arr: App("unbox.arr.Int", SArr(SInt, SInt), data), Len: App("unbox.len", SInt, data), Cap: App("unbox.len", SInt, data)}
+	}
+
 	// sync/atomic.Bool
 	atomicKey := "atomic.Bool.v"
 	x.Models["(*sync/atomic.Bool).Store"] = func(s *State, c *CallCtx) (Value, bool) {
